@@ -261,3 +261,35 @@ Example C14_slice_examples :
   option_map coords (slice_map (Some (-2)) None None (r_add (1, 1, 1)) (mkEns 1 [[r3 1 1 1]; [r3 2 2 2]; [r3 3 3 3]] [[n 0]; [n 0]; [n 0]] [n 1; n 1; n 1]))
     = Some [[r3 1 1 1]; [r3 3 3 3]; [r3 4 4 4]].
 Proof. vm_compute. repeat split. Qed.
+
+(* ---- DETACHED views: a conformer that outlives every other reference to its ensemble (restored from a pickle -- alone, in a
+        slice, as an element of a pickled ensemble --, deep-copied, returned by a helper whose ensemble was a local) is still a
+        conformer of an ensemble: detaching adds a copy of its ensemble to the store and changes nothing else ... *)
+Theorem C14_detached_view : forall W i W1, detach W i = Some W1 ->
+  exists e, nth_error (enss W) i = Some e /\ W1 = push_ens W e /\ nth_error (enss W1) (length (enss W)) = Some e /\
+            iters W1 = iters W /\ (forall j, (j < length (enss W))%nat -> nth_error (enss W1) j = nth_error (enss W) j) /\
+            (StoreRect W -> StoreRect W1).
+Proof. exact detach_spec. Qed.
+Print Assumptions C14_detached_view.
+(* ... every use of it is the ordinary operation through conformer k of that ensemble (so the rectangularity, lens and frame
+   theorems above hold for it) ... *)
+Theorem C14_detached_write : forall W j k u e e', u <> DRead -> nth_error (enss W) j = Some e -> duse_fun k u e = Some e' ->
+  step W (duse_op j k u) = Ok (set_ens W j e') ONone.
+Proof. exact detached_write_is_step. Qed.
+Theorem C14_detached_read : forall W j k e c q, nth_error (enss W) j = Some e -> c_get_coords k e = Some c -> c_get_charges k e = Some q ->
+  step W (duse_op j k DRead) = Ok W (OConf c q) /\ duse_fun k DRead e = Some e.
+Proof. exact detached_read_is_step. Qed.
+(* ... and what is written through it never reaches the ensemble it was copied from *)
+Theorem C14_detached_original_untouched : forall W i W1 e', detach W i = Some W1 ->
+  forall j, (j < length (enss W))%nat -> nth_error (enss (set_ens W1 (length (enss W)) e')) j = nth_error (enss W) j.
+Proof. exact detached_original_untouched. Qed.
+Print Assumptions C14_detached_original_untouched.
+Example C14_detached_nonvacuous :
+  let e := mkEns 2%nat [[r3 1 2 3; r3 4 5 6]; [r3 11 12 13; r3 14 15 16]; [r3 21 22 23; r3 24 25 26]] [[n 7; n 8]; [n 17; n 18]; [n 27; n 28]] [n 1; n 1; n 1] in
+  check_detached (e, [2; 0]%Z, [DRead; DTranslate (1, 1, 1)%Z; DSetChargeElem 1 (n 99); DScale 2],
+                  [[([r3 21 22 23; r3 24 25 26], [n 27; n 28]); ([r3 1 2 3; r3 4 5 6], [n 7; n 8])];
+                   [([r3 21 22 23; r3 24 25 26], [n 27; n 28]); ([r3 2 3 4; r3 5 6 7], [n 7; n 8])];
+                   [([r3 21 22 23; r3 24 25 26], [n 27; n 99]); ([r3 2 3 4; r3 5 6 7], [n 7; n 8])];
+                   [([r3 21 22 23; r3 24 25 26], [n 27; n 99]); ([r3 4 6 8; r3 10 12 14], [n 7; n 8])]]) = true /\
+  exists W1, detach (push_ens empty_store e) 0%nat = Some W1 /\ length (enss W1) = 2%nat.
+Proof. split; [vm_compute; reflexivity|]. eexists. split; [vm_compute; reflexivity|reflexivity]. Qed.
